@@ -569,6 +569,15 @@ func coveringDesigns() []*dg.Design {
 			{Name: "af", Methods: []*dg.Method{abs("a", rt("GET", "//api/v1/a/{id}")), {Name: "r", HTTP: &dg.HTTPMap{Routes: []dg.Route{rt("GET", "/r")}}}},
 				Files: []dg.FileServer{{Path: "/file.json", File: "public/file.json"}}}}})
 	}
+	// c13: regression case of the repaired hasAbsoluteRoutes (was the finding "absolute service
+	// path under a kept basePath"): services whose own path is absolute, under an API base
+	// path, next to a relative service; one of them shares a string prefix with the base path
+	add(&dg.Design{Name: "cover_svcabs", BasePath: "/api", Services: []*dg.Service{
+		{Name: "s", BasePath: "//abs", Methods: []*dg.Method{{Name: "a", Payload: obj(rstr("id")), HTTP: &dg.HTTPMap{Routes: []dg.Route{rt("GET", "/x/{id}")}}}}},
+		{Name: "t", Methods: []*dg.Method{{Name: "b", HTTP: &dg.HTTPMap{Routes: []dg.Route{rt("GET", "/y")}}}}},
+		{Name: "u", BasePath: "//apix", Methods: []*dg.Method{{Name: "c", HTTP: &dg.HTTPMap{Routes: []dg.Route{rt("POST", "/z")}}}}}}})
+	add(&dg.Design{Name: "cover_svcabs_under", BasePath: "/api", Services: []*dg.Service{
+		{Name: "s", BasePath: "//api/inner", Methods: []*dg.Method{{Name: "a", HTTP: &dg.HTTPMap{Routes: []dg.Route{rt("GET", "/x")}}}}}}})
 	return ds
 }
 
@@ -648,10 +657,5 @@ func witnessDesigns() []*dg.Design {
 		{Name: "multi", Payload: obj(rstr("title"), str("note")), HTTP: &dg.HTTPMap{Routes: []dg.Route{rt("POST", "/multi")}, Multipart: true}},
 		{Name: "mq", Payload: obj(dg.F("m", dg.MapOf(dg.A(dg.Prim("String")), dg.A(dg.Prim("String"))))), HTTP: &dg.HTTPMap{Routes: []dg.Route{rt("GET", "/mq")}, Params: []dg.MapEntry{me("m", "")}}},
 	}}}})
-	// a service whose own path is absolute under an API base path: OpenAPI 2 keeps basePath
-	// (no route is absolute) and writes the key in full
-	ds = append(ds, &dg.Design{Name: "w_svcabs", BasePath: "/api", Services: []*dg.Service{
-		{Name: "s", BasePath: "//abs", Methods: []*dg.Method{{Name: "a", Payload: obj(rstr("id")), HTTP: &dg.HTTPMap{Routes: []dg.Route{rt("GET", "/x/{id}")}}}}},
-		{Name: "t", Methods: []*dg.Method{{Name: "b", HTTP: &dg.HTTPMap{Routes: []dg.Route{rt("GET", "/y")}}}}}}})
 	return ds
 }
